@@ -2,7 +2,7 @@
 """bounded stand-ins (NOT proofs): small cargo crates under /verif/bounded/<id> that link the real crates of the working
 tree by path, enumerate inputs up to a stated bound and compare the real output with an independent oracle.
 run_bounded(id, tier, repo) -> dict(status ok|violation|undecided, evaluations, distinct_nontrivial, failures, ...)"""
-import os, sys, json, subprocess, hashlib, shutil, time
+import os, sys, json, subprocess, hashlib, shutil, time, glob
 VERIF = os.path.dirname(os.path.dirname(os.path.abspath(__file__)))
 BDIR = os.path.join(VERIF, 'bounded')
 
@@ -62,6 +62,7 @@ def run_bounded(bid, tier='quick', repo='/repo', extra_args=None):
     env = dict(os.environ, CARGO_NET_OFFLINE='true', CARGO_TARGET_DIR=tdir)
     res = dict(id=bid, tier=tier, repo=repo, kind='bounded')
     scratch_tree = repo != '/repo'
+    binname = reg.get('bin', bid)   # several checks may share one harness binary (args_prefix selects the family)
     binp = os.path.join(work, 'bin-' + bid)
 
     def listing():
@@ -86,6 +87,11 @@ def run_bounded(bid, tier='quick', repo='/repo', extra_args=None):
                 res.update(status='undecided', note='bounded check %s needs the workspace manifest %s/Cargo.toml to build nitrogql-cli' % (bid, repo), wall_s=round(time.time() - t0, 2))
                 return res
             ctdir = os.path.join(BDIR, 'target-cli', 'repo' if not scratch_tree else '%s-%d' % (tag, os.getpid()))
+            # leftovers of scratch-tree runs that were killed before they could clean up
+            for d in glob.glob(os.path.join(BDIR, 'target-cli', '*-*')):
+                pid = d.rsplit('-', 1)[1]
+                if pid.isdigit() and not os.path.exists('/proc/' + pid):
+                    shutil.rmtree(d, ignore_errors=True)
             cenv = dict(env, CARGO_TARGET_DIR=ctdir)
             pc = subprocess.run(['cargo', 'build', '--offline', '--release', '-q', '-p', 'nitrogql-cli'], cwd=repo, env=cenv, capture_output=True, text=True, timeout=3000)
             cbuilt = os.path.join(ctdir, 'release', 'nitrogql-cli')
@@ -97,8 +103,8 @@ def run_bounded(bid, tier='quick', repo='/repo', extra_args=None):
             if not ok_cli:
                 res.update(status='undecided', note='nitrogql-cli did not build from this tree: ' + pc.stderr[-1500:], wall_s=round(time.time() - t0, 2))
                 return res
-        p = subprocess.run(['cargo', 'build', '--offline', '--release', '-q', '--bin', bid], cwd=work, env=env, capture_output=True, text=True, timeout=3000)
-        built = os.path.join(tdir, 'release', bid)
+        p = subprocess.run(['cargo', 'build', '--offline', '--release', '-q', '--bin', binname], cwd=work, env=env, capture_output=True, text=True, timeout=3000)
+        built = os.path.join(tdir, 'release', binname)
         if p.returncode == 0 and os.path.exists(built):
             _install(built, binp)
         if scratch_tree:
